@@ -6,6 +6,7 @@ toolchain go1.25.11
 
 require (
 	github.com/WuKongIM/WuKongIM v0.0.0
+	github.com/cockroachdb/pebble/v2 v2.1.4
 	go.etcd.io/raft/v3 v3.6.0
 )
 
@@ -42,7 +43,6 @@ require (
 	github.com/cockroachdb/crlib v0.0.0-20241112164430-1264a2edc35b // indirect
 	github.com/cockroachdb/errors v1.11.3 // indirect
 	github.com/cockroachdb/logtags v0.0.0-20230118201751-21c54148d20b // indirect
-	github.com/cockroachdb/pebble/v2 v2.1.4 // indirect
 	github.com/cockroachdb/redact v1.1.5 // indirect
 	github.com/cockroachdb/swiss v0.0.0-20251224182025-b0f6560f979b // indirect
 	github.com/cockroachdb/tokenbucket v0.0.0-20230807174530-cc333fc44b06 // indirect
